@@ -3,7 +3,7 @@ from .. import product as P
 
 # family -> (parameter, ordered values from loose to strict)
 DETECT = {
-    "ADWIN": ("delta", [0.5, 0.2, 0.05, 0.002]), "CUSUM": ("threshold", [2.0, 4.0, 8.0, 20.0]), "PageHinkley": ("threshold", [1.0, 3.0, 10.0, 30.0]),
+    "ADWIN": ("delta", [1.0, 0.5, 0.2, 0.05, 0.002, 0.0]), "CUSUM": ("threshold", [2.0, 4.0, 8.0, 20.0]), "PageHinkley": ("threshold", [1.0, 3.0, 10.0, 30.0]),
     "DDM": ("drift_scale", [2.0, 2.5, 3.0, 4.0]), "EDDM": ("drift_thresh", [0.95, 0.9, 0.8, 0.6]), "STEPD": ("alpha_drift", [0.1, 0.05, 0.01, 0.001]),
     "LinearFourRates": ("detect_level", [0.1, 0.05, 0.02, 0.005]), "KdqTreeStreaming": ("alpha", [0.3, 0.2, 0.05, 0.01]),
     "KdqTreeBatch": ("alpha", [0.3, 0.2, 0.05, 0.01]), "NNDVI": ("alpha", [0.3, 0.2, 0.05, 0.01]),
@@ -52,6 +52,9 @@ def run(ctx):
             if vals is None and p["statistic"] == "tstat" and i % 2 == 0:
                 i1 = 0                               # the looser run uses a level well above one half, the stricter one a level around it or below
                 i2 = rng.choice([1, 2, 3])
+            if vals is not None and i == 0:         # the strictest legal setting of the family against a looser one, every time
+                i2 = len(vs) - 1
+                i1 = rng.randrange(i2)
             loose, strict = dict(p), dict(p)
             loose[par], strict[par] = vs[i1], vs[i2]
             n = rng.randint(8, 12) if batch else (rng.randint(150, 300) if fam not in ("KdqTreeStreaming", "LinearFourRates") else 100)
